@@ -218,6 +218,11 @@ pub fn one_run_h(shape: &Shape, ex: &mut Explorer) -> (Vec<Value>, Value, bool) 
         kd.set_status(ActorStatus::Starting);
         kd.set_status(ActorStatus::Running);
         kd.cell.link(cell.clone());
+        // the last of several children (and an only child of a shape that exits from pre_start) is already draining
+        // when its supervisor goes: it is signalled like the others
+        if k + 1 == shape.kids && (shape.kids >= 2 || shape.pre) {
+            kd.set_status(ActorStatus::Draining);
+        }
         names.pid.insert(kd.cell.get_id().pid(), format!("k{}", k + 1));
         kids.push(Arc::new(Mutex::new(Side { det: kd, hits: 0 })));
     }
